@@ -1,34 +1,70 @@
-import TinsModel.Wire.Iface
+import TinsModel.Wire.Ip.Ip4
+import TinsModel.Wire.Ip.Ah
 /-
-  Family interface of `Ip` (stub: no class of this family is modelled yet).
+  Family interface of `Ip`: IP (IPv4 with its options), IPSecAH, IPSecESP.
   A family module exports, in namespace `Tins.Wire.Ip`:
     Obj, classes, parse, info, hdr, trl, write, mk, apply   (see TinsModel/Wire/Iface.lean)
 -/
 namespace Tins.Wire.Ip
 
 inductive Obj
-  | unit
+  | ip (o : Ip4)
+  | ah (a : Ah)
+  | esp (e : Esp)
 deriving Repr
 
 /-- C++ class names whose parsing constructor this family models -/
-def classes : List String := []
+def classes : List String := ["IP", "IPSecAH", "IPSecESP"]
 
-/-- the parsing constructor `cls(buffer, total_sz)` (or `from_bytes`) -/
-def parse (_cls : String) (_b : Bytes) : Out (Obj × Inner) := .throw .stdOther
+/-- the parsing constructor `cls(buffer, total_sz)` -/
+def parse (cls : String) (b : Bytes) : Out (Obj × Inner) :=
+  if cls == "IP" then (Ip4.parse b) >>= fun (o, i) => pure (.ip o, i)
+  else if cls == "IPSecAH" then (Ah.parse b) >>= fun (o, i) => pure (.ah o, i)
+  else if cls == "IPSecESP" then (Esp.parse b) >>= fun (o, i) => pure (.esp o, i)
+  else .throw .stdOther
 
 /-- (actual class name, getter dump) -/
-def info (_o : Obj) : String × Fields := ("", [])
+def info : Obj → String × Fields
+  | .ip o => ("IP", o.fields)
+  | .ah a => ("IPSecAH", a.fields)
+  | .esp e => ("IPSecESP", e.fields)
 
-def hdr (_o : Obj) : Nat := 0
+def hdr : Obj → Nat
+  | .ip o => o.hdr
+  | .ah a => a.hdr
+  | .esp _ => 8
+
 def trl (_o : Obj) (_innerSize : Nat) : Nat := 0
 
 /-- `write_serialization(buffer, total_sz)` on the layer's region -/
-def write (_cx : Ctx) (_o : Obj) (region : Bytes) : Out Bytes := .ok region
+def write (cx : Ctx) : Obj → Bytes → Out Bytes
+  | .ip o, region => o.write cx region
+  | .ah a, region => a.write cx region
+  | .esp e, region => e.write cx region
 
-/-- public (non-parsing) constructors: `new <cls> args…` -/
-def mk (_cls : String) (_args : List String) : Out Obj := .throw .stdOther
+/-- public (non-parsing) constructors: `push IP [dst src]` (addresses as 4 bytes of hex), `push IPSecAH`, `push IPSecESP` -/
+def mk (cls : String) (args : List String) : Out Obj :=
+  match cls, args with
+  | "IP", [] => .ok (.ip (Ip4.create [0, 0, 0, 0] [0, 0, 0, 0]))
+  | "IP", [d, s] => match Ip4.parseAddr d, Ip4.parseAddr s with
+    | some d, some s => .ok (.ip (Ip4.create d s))
+    | _, _ => .throw .stdOther
+  | "IPSecAH", [] => .ok (.ah Ah.create)
+  | "IPSecESP", [] => .ok (.esp Esp.create)
+  | _, _ => .throw .stdOther
 
-/-- one API call on the object: setters, add/remove option … -/
-def apply (_o : Obj) (_op : List String) : Out Obj := .throw .stdOther
+/-- one API call on the object: setters, add/remove option, typed option setters -/
+def apply : Obj → List String → Out Obj
+  | .ip o, op => (o.apply op) >>= fun x => pure (.ip x)
+  | .ah a, op => (a.apply op) >>= fun x => pure (.ah x)
+  | .esp e, op => (e.apply op) >>= fun x => pure (.esp x)
+
+/-- `IP::prepare_for_serialize()`: a top-level IP whose source address is 0.0.0.0 gets the address of the interface
+    that routes to the destination (`NetworkInterface(dst_addr())`, read from the host's routing table) when it is
+    serialized.  That is a call into the environment the wire model has no parameter for: the driver answers
+    `unmodelled` for such packets (known finding KF-C03-Ip-4 / KF-C04-Ip-2 covers what the implementation does). -/
+def envDependentTop : Obj → Bool
+  | .ip o => o.src == [0, 0, 0, 0]
+  | _ => false
 
 end Tins.Wire.Ip
